@@ -98,6 +98,12 @@ class C14(Property):
                     r = rng.choice(state["rts"])
                 body = self._gen_body(rng, state, depth + 1, active + [r])
                 ops.append({"op": "block", "r": r, "body": body})
+            elif x < 0.27 and state.get("spawn_depth", 0) < 1:
+                # a new thread started and joined here; its blocks nest from zero
+                state["spawn_depth"] = state.get("spawn_depth", 0) + 1
+                body = self._gen_body(rng, state, 0, [])
+                state["spawn_depth"] -= 1
+                ops.append({"op": "spawn", "inherit": rng.random() < 0.5, "body": body})
             elif x < 0.34:
                 ops.append({"op": "new", "r": self._new_rt(state), "handlers": self._tagmap(rng, state)})
             elif x < 0.52:
@@ -120,18 +126,19 @@ class C14(Property):
             elif x < 0.92 and depth > 0:
                 ops.append({"op": "run_raise", "t": rng.randrange(NTYPES), "k": rng.randint(1, depth)})
                 # only raises if the serving handler is a raiser; otherwise continues
-            elif depth > 0 and rng.random() < 0.5:
-                break  # normal exit of this block
+            elif (depth > 0 or state.get("spawn_depth", 0) > 0) and rng.random() < 0.5:
+                break  # normal exit of this block / end of the spawned thread's script
         return ops
 
     # ------------------------------------------------------------------ execution
     def run_case(self, case):
         res = Result()
         box = {}
+        shared = {}
 
         def target():
             try:
-                self._execute(case, res, box)
+                self._execute(case, res, box, shared)
             except BaseException as e:  # noqa: BLE001
                 box["crash"] = repr(e)
 
@@ -141,7 +148,6 @@ class C14(Property):
                 th.start()
                 th.join()
             else:
-                lrt._RUNTIMES[threading.current_thread()] = lrt.Runtime()
                 target()
         if "crash" in box and not res.violations:
             res.violate("harness-or-library-crash", error=box["crash"])
@@ -154,33 +160,33 @@ class C14(Property):
         res.sample = case
         return res
 
-    def _execute(self, case, res, box):
+    def _execute(self, case, res, box, shared):
         log = box["log"] = Log()
         # fresh request types per run
-        types = []
-        for t in range(NTYPES):
-            cls = type(f"T{t}", (lrt.Request,), {"__init__": lambda self, k=0: setattr(self, "k", k)})
-            types.append(cls)
-        model = {
-            "defaults": {},  # type index -> tag
-            "holds": {},  # runtime id -> {type index: tag}
-            "stack": [],
-            "base_obj": lrt._RUNTIMES.get(threading.current_thread()),
-        }
-        objs = {}
+        types = [type(f"T{t}", (lrt.Request,), {"__init__": lambda self, k=0: setattr(self, "k", k)}) for t in range(NTYPES)]
+        shared.update({"defaults": {}, "holds": {}, "objs": {}, "types": types, "log": log, "nthreads": 0})
         for t in case["pre_defaults"]:
             lrt.handle_by_default(types[t], _handler(f"d{t}"))
-            model["defaults"][t] = f"d{t}"
-        st = {"maxdepth": 0, "exc_exit": False, "reentry": False}
+            shared["defaults"][t] = f"d{t}"
+        st = box["st"] = {"maxdepth": 0, "exc_exit": False, "reentry": False, "spawned": 0}
+        # "a thread whose runtime already exists": the main-thread variant asks for its runtime first (public API)
+        base_obj = None if case["worker"] else lrt.current_runtime()
+        self._thread_script(case["ops"], res, shared, st, base_holds={}, base_obj=base_obj, label="")
+        box["nontrivial"] = st["maxdepth"] >= 2 or st["exc_exit"] or st["reentry"] or st["spawned"] > 0
+
+    def _thread_script(self, script_ops, res, shared, st, base_holds, base_obj, label):
+        """Interpret one thread's ops against its own stack model (shared: runtime objects, defaults)."""
+        types, objs, holds_of, defaults, log = shared["types"], shared["objs"], shared["holds"], shared["defaults"], shared["log"]
+        stack = []
+
+        def cur_holds():
+            return holds_of[stack[-1]] if stack else base_holds
 
         def expected(t):
-            top = model["stack"][-1] if model["stack"] else None
-            holds = model["holds"].get(top, {}) if top is not None else {}
-            if t in holds:
-                return holds[t]
-            if t in model["defaults"]:
-                return model["defaults"][t]
-            return "TypeError"
+            h = cur_holds()
+            if t in h:
+                return h[t]
+            return defaults.get(t, "TypeError")
 
         def observe(t, k=0):
             try:
@@ -197,20 +203,20 @@ class C14(Property):
                 try:
                     got = observe(t)
                 except Exception as e:  # noqa: BLE001
-                    res.violate("crash-on-request", where=where, type=t, error=f"{type(e).__name__}: {e}", stack=list(model["stack"]))
+                    res.violate("crash-on-request", where=where, type=t, error=f"{type(e).__name__}: {e}", stack=list(stack))
                     return
                 want = expected(t)
                 log.add("probe", where, t, got)
                 res.bump("probes")
                 if got != want:
-                    res.violate("wrong-handler", where=where, type=t, got=got, want=want, stack=list(model["stack"]))
+                    res.violate("wrong-handler", where=where, type=t, got=got, want=want, stack=list(stack))
                     return
             # identity of the current runtime
-            top = model["stack"][-1] if model["stack"] else None
+            top = stack[-1] if stack else None
             cur = lrt.current_runtime()
             if top is not None and cur is not objs[top]:
-                res.violate("wrong-current-runtime", where=where, stack=list(model["stack"]))
-            elif top is None and model["base_obj"] is not None and cur is not model["base_obj"]:
+                res.violate("wrong-current-runtime", where=where, stack=list(stack))
+            elif top is None and base_obj is not None and cur is not base_obj:
                 res.violate("initial-runtime-not-restored", where=where)
 
         def handlers_of(tagmap):
@@ -220,24 +226,24 @@ class C14(Property):
             for i, op in enumerate(ops):
                 if res.violations:
                     return
-                where = f"{path}{i}:{op['op']}"
+                where = f"{label}{path}{i}:{op['op']}"
                 kind = op["op"]
                 res.bump("ops")
                 log.add("op", where)
                 if kind == "block":
                     r = op["r"]
-                    if r in model["stack"]:
+                    if r in stack:
                         st["reentry"] = True
                         res.bump("reentered_runtime")
                     try:
                         with objs[r]:
-                            model["stack"].append(r)
-                            st["maxdepth"] = max(st["maxdepth"], len(model["stack"]))
+                            stack.append(r)
+                            st["maxdepth"] = max(st["maxdepth"], len(stack))
                             probe(where + ":entered")
                             run_ops(op["body"], f"{path}{i}.")
-                            model["stack"].pop()
+                            stack.pop()
                     except SimRaise as e:
-                        model["stack"].pop()
+                        stack.pop()
                         st["exc_exit"] = True
                         res.bump("exits_by_exception")
                         e.k -= 1
@@ -245,39 +251,68 @@ class C14(Property):
                             raise
                     probe(where + ":left")
                     continue
+                if kind == "spawn":
+                    # a new thread, started and joined right here (the parent may be inside blocks)
+                    st["spawned"] += 1
+                    res.bump("threads_spawned")
+                    parent_thread = threading.current_thread()
+                    parent_holds = dict(cur_holds())
+                    shared["nthreads"] += 1
+                    err = {}
+
+                    def child(op=op):
+                        try:
+                            b = {}
+                            if op.get("inherit"):
+                                lrt.inherit(parent_thread)
+                                b = parent_holds
+                                res.bump("inherit_calls")
+                            self._thread_script(op["body"], res, shared, st, base_holds=b, base_obj=None, label=f"{where}>")
+                        except SimRaise:
+                            pass
+                        except BaseException as e:  # noqa: BLE001
+                            err["e"] = repr(e)
+
+                    th = threading.Thread(target=child, name=f"S{shared['nthreads']}")
+                    th.start()
+                    th.join()
+                    if err and not res.violations:
+                        res.violate("crash-in-spawned-thread", where=where, error=err["e"])
+                    probe(where + ":joined")
+                    continue
                 if kind == "new":
                     objs[op["r"]] = lrt.Runtime(handlers_of(op["handlers"]))
-                    model["holds"][op["r"]] = {int(t): tag for t, tag in op["handlers"].items()}
+                    holds_of[op["r"]] = {int(t): tag for t, tag in op["handlers"].items()}
                 elif kind == "derive":
                     over = handlers_of(op["overrides"])
                     if op["src"] == "current":
-                        src_holds = model["holds"].get(model["stack"][-1], {}) if model["stack"] else {}
+                        src_holds = cur_holds()
                         if op["form"] == "pair" and len(over) == 1:
                             ((ty, h),) = over.items()
                             objs[op["r"]] = lrt.handle(ty, h)
                         else:
                             objs[op["r"]] = lrt.handle(over)
                     else:
-                        src_holds = model["holds"][op["src"]]
+                        src_holds = holds_of[op["src"]]
                         if op["form"] == "pair" and len(over) == 1:
                             ((ty, h),) = over.items()
                             objs[op["r"]] = objs[op["src"]].handle(ty, h)
                         else:
                             objs[op["r"]] = objs[op["src"]].handle(over)
-                    model["holds"][op["r"]] = {**src_holds, **{int(t): tag for t, tag in op["overrides"].items()}}
+                    holds_of[op["r"]] = {**src_holds, **{int(t): tag for t, tag in op["overrides"].items()}}
                 elif kind == "builtin":
-                    src_holds = model["holds"].get(model["stack"][-1], {}) if model["stack"] else {}
+                    src_holds = cur_holds()
                     objs[op["r"]] = labrea.cache.disabled() if op["which"] == "cache" else labrea.logging.disabled()
-                    model["holds"][op["r"]] = dict(src_holds)
+                    holds_of[op["r"]] = dict(src_holds)
                 elif kind == "regdef":
                     lrt.handle_by_default(types[op["t"]], _handler(f"d{op['t']}"))
-                    model["defaults"][op["t"]] = f"d{op['t']}"
+                    defaults[op["t"]] = f"d{op['t']}"
                     res.bump("defaults_registered_late")
                 elif kind == "run":
                     got = observe(op["t"])
                     log.add("run", where, got)
                     if got != expected(op["t"]):
-                        res.violate("wrong-handler", where=where, type=op["t"], got=got, want=expected(op["t"]), stack=list(model["stack"]))
+                        res.violate("wrong-handler", where=where, type=op["t"], got=got, want=expected(op["t"]), stack=list(stack))
                         return
                 elif kind == "raise":
                     raise SimRaise(op["k"])
@@ -289,20 +324,17 @@ class C14(Property):
                         observe(op["t"])
                 probe(where)
 
-        # a runtime object may be entered before it exists in `objs` only if generation created it: all
-        # runtimes are created by ops before use (generator picks from state["rts"], filled in order)
-        probe("start")
+        probe(label + "start")
         try:
-            run_ops(case["ops"], "")
+            run_ops(script_ops, "")
         except SimRaise:
             pass
         except KeyError as e:
             # a shrunk candidate that uses a runtime before creating it is not a valid history
-            box["invalid"] = repr(e)
             res.violations.clear()
+            res.bump("invalid_candidate")
             return
-        probe("end")
-        box["nontrivial"] = st["maxdepth"] >= 2 or st["exc_exit"] or st["reentry"]
+        probe(label + "end")
 
     # ------------------------------------------------------------------ shrinking
     def shrink_candidates(self, case):
@@ -311,7 +343,7 @@ class C14(Property):
         def variants(ops):
             for i in range(len(ops)):
                 yield ops[:i] + ops[i + 1:]
-                if ops[i]["op"] == "block":
+                if ops[i]["op"] in ("block", "spawn"):
                     yield ops[:i] + ops[i]["body"] + ops[i + 1:]  # unwrap
                     for sub in variants(ops[i]["body"]):
                         new = copy.deepcopy(ops)
